@@ -65,7 +65,7 @@ PROPS["C16"] = {
 PROPS["C12"] = {
     "lean_modules": ["AvroModel.Props.C12"],
     "required_theorems": ["discipline_no_race", "lockOK_preserved", "inv_preserved", "disciplined_state_no_race",
-                          "sections_isolated", "unlock_never_faults", "all_guarded", "guarded_rows", "all_guarded_rows",
+                          "sections_isolated", "lockfree_steps_commute", "section_step_delays", "section_step_advances", "unlock_never_faults", "all_guarded", "guarded_rows", "all_guarded_rows",
                           "guarded_programs_checked", "library_no_race", "codecs_immutable", "per_call_state_not_shared",
                           "registry_confluent", "registry_lookup_insert", "registry_inserts_commute"],
     "harness": ["C12"],
@@ -74,8 +74,9 @@ PROPS["C12"] = {
                   "semantics of threads x RW-mutexes x plain shared variables, every execution of programs that respect a lock "
                   "discipline (writes under the variable's mutex held exclusively, reads under it in any mode, unguarded variables "
                   "never written, well-bracketed locking) is free of data races - with the two preservation lemmas (steps keep the "
-                  "mutex state consistent; checked programs stay checked), isolation of critical sections on the same mutex and "
-                  "unlock-never-faults; (2) the discipline predicate Guarded evaluates to true (kernel `decide`) on the table of "
+                  "mutex state consistent; checked programs stay checked), isolation of critical sections on the same mutex, lock-free steps of disciplined threads are both-movers "
+                  "(they commute with adjacent steps of other threads to the same state, so a critical section can be gathered into "
+                  "one uninterrupted block; the full reduction theorem is not proved) and unlock-never-faults; (2) the discipline predicate Guarded evaluates to true (kernel `decide`) on the table of "
                   "every syntactic access to every package-level variable of avro, avro/time, avro/null with the mutexes held there, "
                   "REGENERATED from the Go sources by go/ast on every run (removing or narrowing a lock breaks theorem all_guarded); "
                   "(3) no Codec method assigns through its receiver or writes package state; per-call state types are never stored in "
